@@ -74,7 +74,6 @@ class Sched:
         self.rthread = _rt.Thread(target=self._r_main, daemon=True, name="c17-R")
         self.slots["R"].state = "idle"
         self.rthread.start()
-        self._ready = _rt.Event()
 
     # ---- called from the threads under control
     def who(self) -> Optional[str]:
@@ -329,6 +328,7 @@ class LoggerStand:
         self.api = {"started": False, "paused": False, "stop_called": False, "stopped": False, "close_called": False, "closed": False}
         self.desync: Optional[int] = None
         self.hang = False
+        self.steps: List[Dict[str, Any]] = []
         self.dir = tempfile.mkdtemp(prefix="c17_")
         self.sched = Sched()
         self._saved = (dcmod.threading, dcmod.time, tempfile.tempdir)
@@ -391,18 +391,19 @@ class LoggerStand:
     def make_msg(self, t: str, serial: int):
         cls = self.typemap[t]
         data = cls()
-        if hasattr(cls, "pid"):
+        fields = set(data.to_dict().keys())
+        if "pid" in fields:
             data.pid = serial
-        elif hasattr(cls, "elapsed_time"):
+        elif "elapsed_time" in fields:
             data.elapsed_time = serial + 0.25
             data.timestamp = 1000.0 + serial
             data.is_recording = 1
-        elif hasattr(cls, "name"):
+        elif "name" in fields:
             data.name = f"m{serial}"
-        hdr = self.pyrtma.MessageHeader() if hasattr(self.pyrtma, "MessageHeader") else None
-        if hdr is None:
-            from pyrtma.header import MessageHeader
-            hdr = MessageHeader()
+        elif fields:
+            raise HarnessError(f"no rule to fill {cls.__name__}")
+        from pyrtma.header import MessageHeader
+        hdr = MessageHeader()
         hdr.msg_type = cls.type_id
         hdr.msg_count = serial
         hdr.send_time = 2000.0 + serial
@@ -490,9 +491,64 @@ class LoggerStand:
         return th == "R" and self.sched.slots["R"].state == "idle" and not self.api["closed"]
 
     def do(self, step: Dict[str, Any]) -> Dict[str, Any]:
+        self.steps.append({"th": step["th"], "a": step["a"], "t": step.get("t", ""), "dt": int(step.get("dt", 0))})
         if step["a"] == "Op":
             return self.op(step["th"])
         return self.begin(step["a"], step.get("t", ""), int(step.get("dt", 0)))
+
+    def options(self, more_calls: bool) -> List[str]:
+        """threads whose next step is not a no-op timeout: the choices of a code-driven schedule"""
+        out = []
+        if self.sched.slots["R"].state == "idle":
+            if more_calls and not self.api["closed"]:
+                out.append("R")
+        elif self.sched.enabled("R") and not self.is_stutter("R"):
+            out.append("R")
+        if self.sched.enabled("W") and not self.is_stutter("W"):
+            out.append("W")
+        return out
+
+    def run_script(self, script: List[Dict[str, Any]], prefix: Optional[List[str]] = None, rng=None, p_stutter: float = 0.0):
+        """code-driven schedule: the recorder performs the API calls of `script` in order; at every point where both threads
+        can take a step that is not a no-op, the next thread is prefix[k] / a random choice (rng) / the first option.
+        Calls that share nothing with the writer (Start, Tick, Pause, Resume) are taken at once (they commute with every writer
+        step).  Returns (result, alternative prefixes not taken beyond `prefix`)."""
+        prefix = prefix or []
+        ci, taken, alts = 0, [], []
+        while len(self.steps) < 2000:
+            idle = self.sched.slots["R"].state == "idle"
+            if idle and ci < len(script) and script[ci]["a"] in ("Start", "Tick", "Pause", "Resume"):
+                self.do(script[ci])
+                ci += 1
+                continue
+            if rng is not None and p_stutter and rng.random() < p_stutter:
+                for who in ("W", "R"):
+                    if self.is_stutter(who):
+                        self.do({"th": who, "a": "Op"})
+                        break
+            opts = self.options(ci < len(script))
+            if not opts:
+                break
+            k = len(taken)
+            if k < len(prefix):
+                c = prefix[k]
+                if c not in opts:
+                    raise HarnessError(f"schedule prefix not reproducible at choice {k}: {c} not in {opts}")
+            elif rng is not None:
+                c = opts[rng.randrange(len(opts))]
+            else:
+                c = opts[0]
+                alts += [taken + [o] for o in opts[1:]]
+            taken.append(c)
+            if c == "R" and idle:
+                self.do(script[ci])
+                ci += 1
+            else:
+                self.do({"th": c, "a": "Op"})
+        self.drain()
+        res = self.result()
+        res["choices"] = taken
+        return res, alts
 
     def is_stutter(self, who: str) -> bool:
         """would scheduling `who` now be a wait() that times out without any effect?"""
@@ -542,7 +598,7 @@ class LoggerStand:
             if i in st:
                 for who in ("W", "R"):
                     if self.is_stutter(who):
-                        self.op(who)
+                        self.do({"th": who, "a": "Op"})
                         break
             if not self.can(step):
                 self.desync = i
@@ -554,8 +610,9 @@ class LoggerStand:
     def result(self) -> Dict[str, Any]:
         files, unread = self.read_back()
         ev = list(self.events)
-        ev.append(_blank(th="E", a="Files", files=files, unread=unread, hang=self.hang))
-        return {"ev": ev, "order": writer_order(ev), "desync": self.desync, "hang": self.hang, "files": files, "unread": unread,
+        ev.append(_blank(th="E", a="Files", files=files, unread=sorted({u.split(":")[1] for u in unread}),
+                         badds=sorted({u.split(":")[0] for u in unread}), hang=self.hang))
+        return {"ev": ev, "order": writer_order(ev), "steps": list(self.steps), "desync": self.desync, "hang": self.hang, "files": files, "unread": unread,
                 "script": [{"id": i, "t": self.msgs[i][0]} for i in sorted(self.msgs)]}
 
     # ---------------------------------------------------------------------------------------------------
@@ -697,6 +754,15 @@ def run_behaviour(behaviour, fmts=("raw", "json"), intervals=(30, 0), typemap="s
         st.restore()
 
 
+def run_schedule(script, prefix=None, seed=None, p_stutter=0.0, fmts=("raw", "json"), intervals=(30, 0), typemap="std"):
+    import random
+    st = LoggerStand(fmts=fmts, intervals=intervals, typemap=typemap)
+    try:
+        return st.run_script(script, prefix, random.Random(seed) if seed is not None else None, p_stutter)
+    finally:
+        st.restore()
+
+
 def probe_order() -> str:
     """one flush cycle on the real code: in which order does the writer clear the request / signal completion?"""
     R = lambda a, **kw: dict({"th": "R", "a": a}, **kw)  # noqa: E731
@@ -707,13 +773,16 @@ def probe_order() -> str:
 
 
 # ------------------------------------------------------------------------------------------------------------
-def judge(res: Dict[str, Any], ntypes_sel=None) -> Dict[str, Any]:
+def judge(res: Dict[str, Any]) -> Dict[str, Any]:
     """the C17 clauses on the files of one run (the same predicates DataLogger_Trace evaluates; used for cross-checking
     TLC's verdict and for the signature's input class)."""
     arr = {e["id"]: e for e in res["ev"] if e["a"] == "Update" and e["t"] != "None"}
     names = sorted(res["files"])
     out: Dict[str, List[str]] = {"Lost": [], "Duplicated": [], "Reordered": [], "WrongDataSet": [], "Extra": []}
+    badds = {u.split(":")[0] for u in res["unread"]}
     for d in names:
+        if d in badds:
+            continue
         sel = (lambda t: t == "A") if d == "d1" else (lambda t: True)
         exp = [i for i in sorted(arr) if arr[i]["live"] and sel(arr[i]["t"])]
         obs = [i for f in res["files"][d] for i in f]
